@@ -274,6 +274,13 @@ impl<'tcx> Cx<'tcx> {
                     }
                 }
             }
+            ty::Ref(_, inner, _) if matches!(inner.kind(), ty::Array(..) | ty::Slice(..)) => {
+                // byte-string like constants (format templates): pretty form
+                let pp = with_no_trimmed_paths!(format!("{}", c));
+                if pp.len() < 4000 {
+                    items.push(("pp", js(&pp)));
+                }
+            }
             _ => {}
         }
         if let Const::Unevaluated(uv, _) = c {
@@ -710,8 +717,9 @@ impl<'tcx> Cx<'tcx> {
                             let hir_id = tcx.local_def_id_to_hir_id(vl);
                             for a in tcx.hir_attrs(hir_id) {
                                 let sp = a.span();
-                                if let Ok(snip) = tcx.sess.source_map().span_to_snippet(sp) {
-                                    attrs.push(js(&snip));
+                                match tcx.sess.source_map().span_to_snippet(sp) {
+                                    Ok(snip) => attrs.push(js(&snip)),
+                                    Err(_) => attrs.push(js(&format!("{:?}", a))),
                                 }
                             }
                         }
